@@ -3,6 +3,7 @@ package props
 import (
 	"fmt"
 	"sort"
+	"strings"
 	"testing"
 
 	"verifharness/core"
@@ -585,13 +586,23 @@ func (g *gWorld) pickTargetIdx(rt *rapid.T, allowNone bool) int {
 // genGenericOp draws the next op from the current state of the lock-step worlds' bookkeeping.
 func (g *gWorld) genGenericOp(rt *rapid.T, focus int) gOp {
 	kinds := []string{"mapNew", "mapNew", "mapNewWith", "mapNewBatch", "mapGet", "mapAdd", "mapAssign", "mapRemove",
-		"mapAddBatch", "mapRemoveBatch", "mapRemoveEntities", "rm", "map1", "map1", "exchange", "exchange", "filter", "filter", "filter"}
+		"mapAddBatch", "mapRemoveBatch", "mapRemoveEntities", "rm", "map1", "map1", "exchange", "exchange", "filter", "filter", "filter", "ill"}
+	if g.illWeight > 0 {
+		for i := 0; i < g.illWeight; i++ {
+			kinds = append(kinds, "ill")
+		}
+	}
 	op := gOp{K: rapid.SampledFrom(kinds).Draw(rt, "k"), T: -2}
 	op.A = focus
 	if rapid.IntRange(0, 2).Draw(rt, "other") == 0 {
 		op.A = rapid.IntRange(0, len(gAdapters)-1).Draw(rt, "adapter")
 	}
 	ad := &gAdapters[op.A]
+	if op.K == "ill" {
+		op.N = rapid.IntRange(0, nIllClasses-1).Draw(rt, "illclass")
+		op.E = rapid.IntRange(0, 50).Draw(rt, "illent")
+		return op
+	}
 	if ad.NewMap == nil && op.K != "rm" && op.K != "map1" && op.K != "exchange" {
 		op.K = "filter"
 	}
@@ -723,11 +734,12 @@ func (g *gWorld) genGenericOp(rt *rapid.T, focus int) gOp {
 // ends the case quietly and is counted. relOnly restricts the focus adapters to those with a
 // relation type.
 type genericProp struct {
-	ID, Test string
-	Rule     string
-	Owns     func(msg string) bool
-	RelOnly  bool
-	NonTri   func(g *gWorld) bool
+	ID, Test  string
+	Rule      string
+	Owns      func(msg string) bool
+	RelOnly   bool
+	NonTri    func(g *gWorld) bool
+	IllWeight int // extra weight of illegal calls in the op mix
 }
 
 func runGenericProp(t *testing.T, gp *genericProp) {
@@ -762,6 +774,7 @@ func runGenericProp(t *testing.T, gp *genericProp) {
 			cs.Label("focus adapter " + gAdapters[focus].Name)
 			cs.Sample(func() any { return c })
 			g := newGWorld(c.Cap)
+			g.illWeight = gp.IllWeight
 			aborted := false
 			fail := func(msg string) {
 				if !owns(msg) {
@@ -813,5 +826,7 @@ func runGenericProp(t *testing.T, gp *genericProp) {
 
 func TestC18(t *testing.T) {
 	runGenericProp(t, &genericProp{ID: "C18", Test: "TestC18",
-		Rule: fmt.Sprintf("generated code instantiates MapN/FilterN/QueryN for every arity 0-12 in natural order, reversed order and with the relation type at a varying position (%d instantiations over 17 static types), plus Map, Exchange; generated op histories drive a world Wg through the generic calls and a lock-step world Wc through the ID-based calls the documentation names as equivalent (creation with/without values and targets, batch creation, Add/Assign/Remove, batch variants, RemoveEntities(exclusive), Map.Set/SetRelation/SetRelationBatch(Q), Exchange.*); after every op both worlds are compared completely (alive, masks, every component's bytes, relation targets, returned handles and counts). MapN.Get/GetUnchecked and QueryN.Get must be pointer-identical, position by position, to World.Get of the declared type (nil <=> absent). Filter scripts call Optional/With/Without/Exclusive/WithRelation(target?) before and BETWEEN queries, Register/Unregister, queries with a call-time target, and two queries open at once with different targets; every query's entity set, Count and Relation() must equal those of the core MaskFilter/RelationFilter built from the builder state at query-build time; non-trivial = a filter queried again after its builder was modified or used, two open queries, an optional component absent on a visited entity, or a Get on arity >= 2; every adapter is exercised in every run (round-robin)", len(gAdapters))})
+		// an ID-based call that accepts illegal arguments is C10's business; the case ends there
+		Owns: func(msg string) bool { return !strings.Contains(msg, "HARNESS: the ID-based equivalent") },
+		Rule: fmt.Sprintf("generated code instantiates MapN/FilterN/QueryN for every arity 0-12 in natural order, reversed order and with the relation type at a varying position (%d instantiations over 17 static types), plus Map, Exchange; generated op histories drive a world Wg through the generic calls and a lock-step world Wc through the ID-based calls the documentation names as equivalent (creation with/without values and targets, batch creation, Add/Assign/Remove, batch variants, RemoveEntities(exclusive), Map.Set/SetRelation/SetRelationBatch(Q), Exchange.*); after every op both worlds are compared completely (alive, masks, every component's bytes, relation targets, returned handles and counts). MapN.Get/GetUnchecked and QueryN.Get must be pointer-identical, position by position, to World.Get of the declared type (nil <=> absent). Filter scripts call Optional/With/Without/Exclusive/WithRelation(target?) before and BETWEEN queries, Register/Unregister, queries with a call-time target, and two queries open at once with different targets; 15 classes of illegal calls (removed entities and targets, present/absent components, counts <= 0, relation calls on non-relation or missing components) must panic exactly like their ID-based equivalents and change nothing; every query's entity set, Count and Relation() must equal those of the core MaskFilter/RelationFilter built from the builder state at query-build time; non-trivial = a filter queried again after its builder was modified or used, two open queries, an optional component absent on a visited entity, or a Get on arity >= 2; every adapter is exercised in every run (round-robin)", len(gAdapters))})
 }
